@@ -41,7 +41,7 @@ INVARIANT Emit
 CHECK_DEADLOCK FALSE
 """
 PAIRS_QUICK = ["M1", "M5", "N1", "N2", "L1", "T1"]
-PAIRS_THOROUGH = ["M1", "M2", "M3", "M4", "M5", "N1", "N2", "L1", "L2", "L3", "L4", "T1", "T2", "T3", "Z1", "Z2", "Z3", "A", "AAAA", "MX", "TXT", "OPT", "TSIG", "NSEC", "NSEC3", "SVCB", "HTTPS", "APL", "LOC", "SOA", "RRSIG", "NAPTR", "HIP", "IPSECKEY", "CAA", "URI", "CERT", "TKEY", "DS", "AMTRELAY", "CSYNC", "GPOS", "ISDN", "NSAP", "CH.A", "8.1", "8.2", "15.1", "15.2", "10.2", "18.1"]
+PAIRS_THOROUGH = ["M1", "M2", "M3", "M4", "M5", "N1", "N2", "L1", "L2", "L3", "L4", "T1", "T2", "T3", "Z1", "Z2", "Z3", "Z4", "A", "AAAA", "MX", "TXT", "OPT", "TSIG", "NSEC", "NSEC3", "SVCB", "HTTPS", "APL", "LOC", "SOA", "RRSIG", "NAPTR", "HIP", "IPSECKEY", "CAA", "URI", "CERT", "TKEY", "DS", "AMTRELAY", "CSYNC", "GPOS", "ISDN", "NSAP", "CH.A", "8.1", "8.2", "15.1", "15.2", "10.2", "18.1"]
 
 
 def tset(xs):
@@ -68,6 +68,8 @@ def finish_job(job, table_by_key):
     return job
 
 
+# a digit string beyond int()'s limit (4300 digits), or a $GENERATE width of 4+ digits
+_HUGE = re.compile(r"[0-9]{4301,}|\$\{[0-9]+,[0-9]{4,}")
 _BIG_ESC = re.compile(r"\\(2[5-9][0-9]|[3-9][0-9][0-9])")
 
 
@@ -86,6 +88,8 @@ def classify(tr, line, clause):
     kind = tr.get("kind")
     cls = e.get("cls", "-")
     hist = tr.get("hist", [])
+    if clause == "OutcomeSet" and "s" in tr and _HUGE.search(tr["s"]) and cls in ("ValueError", "hang", "MemoryError", "OverflowError"):
+        return "C04-huge-number:%s:%s" % (op, cls)
     if clause == "OutcomeSet" and kind in ("namet", "zone", "msgt", "rdt") and cls == "struct.error" \
             and _BIG_ESC.search(tr.get("s", "")):
         return "F1:from_text-decimal-escape-above-255:struct.error"
